@@ -66,10 +66,11 @@ def run(rep):
                            'root': root, 'argstr': f['argstr']}, f)
     if total != len(cases):
         raise C.MachineryError('C11: TLC validated a different number of cases')
-    rep.cov['evaluations'] = len(jobs)
+    rep.cov['evaluations'] = len(cases) * len(decl['pairs'])
+    rep.cov['proofs'] = len(jobs)
     rep.cov['declared_pairs'] = len(decl['pairs'])
     rep.cov['arguments'] = len(cases)
     rep.cov['distinct_nontrivial'] = len(cases) * len(decl['pairs'])
     rep.cov['rule'] = ('every declared (stronger, weaker) pair x every argument of the corpus (schemas + seeded random prop/modal/FO), '
-                       'each argument proved in all 57 logics; distinct = (pair, argument); thorough adds the transitive closure')
+                       'each argument proved in all 57 logics; evaluations = distinct = (pair, argument) checks; thorough adds the transitive closure')
     rep.sample({'pairs': decl['pairs'][:6], 'argument': cases[3]['argstr']})
